@@ -57,3 +57,16 @@ fn f3_zero_threads() {
     assert!(r.is_ok(), "must not panic");
     assert!(r.unwrap().is_err(), "zero threads is a reported error");
 }
+
+// F4 (C11/C10, rule R11.7): remove_txtpp re-attaches the original extension with set_extension(), which REPLACES the last
+// dotted component of a stem that still contains a dot: `a.b.txtpp.c` -> `a.c` instead of `a.b.c` (an unrelated file `a.c`
+// beside the source is overwritten).
+#[test]
+fn f4_dotted_stem_output_name() {
+    let d = scratch("f4");
+    fs::write(d.join("a.b.txtpp.c"), "hello\n").unwrap();
+    fs::write(d.join("a.c"), "UNRELATED\n").unwrap();
+    Txtpp::run(cfg(&d, Mode::Build)).expect("build must succeed");
+    assert_eq!(fs::read_to_string(d.join("a.c")).unwrap(), "UNRELATED\n", "an unrelated file was overwritten");
+    assert_eq!(fs::read_to_string(d.join("a.b.c")).unwrap(), "hello\n", "output must be named a.b.c");
+}
